@@ -14,6 +14,7 @@ package main
 import (
 	"context"
 	"crypto/x509"
+	"errors"
 	"fmt"
 	"os"
 	"path/filepath"
@@ -28,6 +29,8 @@ import (
 	"github.com/notaryproject/notation-go/verifier"
 	"github.com/notaryproject/notation-go/verifier/trustpolicy"
 	"github.com/notaryproject/notation-go/verifier/truststore"
+	pf "github.com/notaryproject/notation-plugin-framework-go/plugin"
+	"github.com/opencontainers/go-digest"
 	ocispec "github.com/opencontainers/image-spec/specs-go/v1"
 )
 
@@ -67,6 +70,16 @@ func main() {
 			sigs[f+"|"+sc] = lib.MustCoreSign(lib.SignSpec{Format: f, Scheme: signature.SigningScheme(sc), Payload: lib.Payload(desc), Signer: leaf})
 		}
 	}
+	// the same, demanding a verification plugin (which approves everything): a plugin's verdict never confers trust
+	for _, f := range lib.Formats {
+		for _, sc := range []string{"notary.x509", "notary.x509.signingAuthority"} {
+			sigs[f+"|"+sc+"|plugin"] = lib.MustCoreSign(lib.SignSpec{Format: f, Scheme: signature.SigningScheme(sc), Payload: lib.Payload(desc), Signer: leaf,
+				Ext: []signature.Attribute{{Key: lib.HdrPlugin, Critical: true, Value: "plug"}}})
+		}
+	}
+	blob := []byte("c03 blob")
+	blobDesc := lib.Desc("application/octet-stream", blob)
+	blobSig := lib.MustCoreSign(lib.SignSpec{Format: lib.MediaJWS, Payload: lib.Payload(blobDesc), Signer: leaf})
 	types := []string{"ca", "signingAuthority", "tsa"}
 	n := r.N(1500, 100000)
 	lib.Parallel(n, 16, func(ci int) {
@@ -154,7 +167,12 @@ func main() {
 			panic(fmt.Sprintf("harness bug: %v", err))
 		}
 		lts := &logTS{inner: truststore.NewX509TrustStore(dir.NewSysFS(base))}
-		v, err := verifier.NewVerifierWithOptions(lts, verifier.VerifierOptions{OCITrustPolicy: doc, RevocationCodeSigningValidator: lib.OKRev{}, RevocationTimestampingValidator: lib.OKRev{}})
+		// a blob document whose only statements are a global one and a named one, each listing the stores of an OCI statement
+		bdoc := &trustpolicy.BlobDocument{Version: "1.0", TrustPolicies: []trustpolicy.BlobTrustPolicy{
+			{Name: "global-statement", SignatureVerification: sts[0].SignatureVerification, TrustStores: sts[0].TrustStores, TrustedIdentities: []string{"*"}, GlobalPolicy: true},
+			{Name: "named-statement", SignatureVerification: sts[len(sts)-1].SignatureVerification, TrustStores: sts[len(sts)-1].TrustStores, TrustedIdentities: []string{"*"}}}}
+		pm := lib.ScriptedManager{P: &lib.ScriptedPlugin{Caps: []pf.Capability{pf.CapabilityTrustedIdentityVerifier, pf.CapabilityRevocationCheckVerifier}}}
+		v, err := verifier.NewVerifierWithOptions(lts, verifier.VerifierOptions{OCITrustPolicy: doc, BlobTrustPolicy: bdoc, PluginManager: pm, RevocationCodeSigningValidator: lib.OKRev{}, RevocationTimestampingValidator: lib.OKRev{}})
 		if err != nil {
 			panic(err)
 		}
@@ -181,7 +199,24 @@ func main() {
 			repo := []string{"reg.io/a", "reg.io/b", "reg.io/c"}[rng.Intn(3)]
 			st := applicable(repo)
 			lts.calls = nil
-			out, verr := v.Verify(ctx, desc, sigs[f+"|"+sc], notation.VerifierVerifyOptions{ArtifactReference: repo + "@" + desc.Digest.String(), SignatureMediaType: f})
+			if rng.Intn(6) == 0 {
+				// blob interface with a policy name no statement carries: refused, and no store may be touched
+				name := []string{"unknown", "named-statemen", "Named-Statement", "global-statement "}[rng.Intn(4)]
+				bout, berr := v.VerifyBlob(ctx, func(alg digest.Algorithm) (ocispec.Descriptor, error) { return blobDesc, nil }, blobSig, notation.BlobVerifierVerifyOptions{SignatureMediaType: lib.MediaJWS, TrustPolicyName: name})
+				r.Eval(fmt.Sprintf("%d/%d/blob", ci, step))
+				r.Event("blob-unknown-name-steps")
+				var noPol notation.ErrorNoApplicableTrustPolicy
+				if berr == nil || !errors.As(berr, &noPol) || bout != nil || len(lts.calls) > 0 {
+					r.Violation(map[string]string{"kind": "trust-from-other-statement", "scheme": "blob"}, fmt.Sprintf("VerifyBlob with the unknown policy name %q: err=%v, stores consulted %v (stores listed only by other statements must never confer trust)", name, berr, lts.calls), map[string]any{"blob_document": bdoc, "stores": stores})
+				}
+				trace = append(trace, fmt.Sprintf("VerifyBlob(name=%q) -> calls=%v err=%v", name, lts.calls, berr != nil))
+				continue
+			}
+			sigKey := f + "|" + sc
+			if rng.Intn(4) == 0 {
+				sigKey += "|plugin"
+			}
+			out, verr := v.Verify(ctx, desc, sigs[sigKey], notation.VerifierVerifyOptions{ArtifactReference: repo + "@" + desc.Digest.String(), SignatureMediaType: f})
 			calls := append([]string(nil), lts.calls...)
 			trace = append(trace, fmt.Sprintf("Verify(%s, %s, %s) -> calls=%v err=%v", sc, f, repo, calls, verr != nil))
 			wit := map[string]any{"stores": stores, "document": doc, "trace": trace}
